@@ -416,7 +416,21 @@ impl Session {
             || rx_plain.get_dst_unicast_nodeid().is_none()
             || rx_plain.get_dst_unicast_nodeid() == Some(self.local_nodeid);
 
+        // A group-typed message belongs to a group session of exactly the group it is
+        // addressed to, and to nothing else: group session ids are derived from the group
+        // key, so they may coincide with the id of a unicast session, and all groups mapped
+        // to one key set share one id.
+        let type_matches = match (&self.mode, rx_plain.is_group_session()) {
+            (SessionMode::Group { group_id, .. }, true) => rx_plain
+                .get_dst_groupcast_nodeid()
+                .map(|dst_group_id| dst_group_id == *group_id)
+                .unwrap_or(true),
+            (SessionMode::Group { .. }, false) | (_, true) => false,
+            (_, false) => true,
+        };
+
         nodeid_matches
+            && type_matches
             && dest_nodeid_matches
             && self.local_sess_id == rx_plain.sess_id
             // Compare canonically: a dual-stack socket may report a peer as
@@ -1729,6 +1743,17 @@ impl Sessions {
         session.update_last_used();
 
         Ok((session, payload_range))
+    }
+
+    /// Record the counter of an authentic group data message in the per-sender group
+    /// counter store. Returns `false` if that sender already used the counter (replay).
+    ///
+    /// For messages which arrive while a group session for their sender and group is
+    /// still alive and which therefore do not go through
+    /// [`Sessions::get_or_create_for_group_rx`].
+    #[cfg(feature = "groups")]
+    pub(crate) fn group_post_recv(&mut self, fab_idx: u8, src_nodeid: u64, msg_ctr: u32) -> bool {
+        self.group_ctr_store.post_recv(fab_idx, src_nodeid, msg_ctr)
     }
 
     /// Try to decrypt a group message with a candidate key.
